@@ -43,7 +43,7 @@ def jobs(tier, seed):
                 out.append({"kind": "member-symcoef", "nt": nt, "vars": vs, "missing": missing, "extra": extra})
     # concrete coefficients
     alpha = [-2, -1, 0, 0, 1, 2, 0.5]
-    n = 60 if tier == "quick" else 800
+    n = 120 if tier == "quick" else 4000
     for i in range(n):
         nv = rng.choice([2, 3, 4])
         vs = ["x", "y", "z", "w"][:nv]
@@ -51,7 +51,7 @@ def jobs(tier, seed):
         missing = [rng.choice(vs)] if rng.random() < 0.2 else []
         out.append({"kind": "member-concrete", "terms": terms, "vars": vs, "missing": missing})
     # emptiness
-    n = 80 if tier == "quick" else 1000
+    n = 160 if tier == "quick" else 5000
     for i in range(n):
         nv = rng.choice([1, 2, 3])
         vs = ["x", "y", "z"][:nv]
@@ -60,7 +60,7 @@ def jobs(tier, seed):
             terms.append({k: -v for k, v in terms[0].items()})
         out.append({"kind": "empty", "terms": terms})
     # consistency with refinement
-    n = 40 if tier == "quick" else 500
+    n = 80 if tier == "quick" else 2500
     for i in range(n):
         vs = ["x", "y"]
         L = [B.rterm(rng, vs, alpha) for _ in range(rng.choice([1, 2, 3]))]
